@@ -11,7 +11,7 @@ import (
 func init() {
 	register(&Spec{ID: "C02", Title: "Received package stream does not depend on fragmentation", Run: runC02,
 		Meta: core.Meta{
-			Explanation: "Structural necessary conditions of fragmentation independence; equality of delivered packages over all cut sets is not decided. R02.1 (parse-or-rollback in WritePacket): the position handed to SetPosition on a failed attempt is exactly the pair returned by the Position() call made in the same loop iteration before tryParsePackage, with no DiscardUntilCurrentPosition in between (a discard shifts packet indices); a failed attempt returns through Reset() on the IsEOM edge or through that SetPosition; a successful attempt is followed by DiscardUntilCurrentPosition before the next attempt. R02.2: fresh parse state per attempt — every arm of LookupPackage returns a freshly allocated package, tryParsePackage calls it once per attempt, no wire-reading function writes a package-level variable. R02.3: transport reads that must fill a fixed buffer are io.ReadFull or sit in a counted loop: PacketHeader.ReadFrom returns success only after a full 8-byte read, Packet.ReadFrom returns success only when totalBytes == Header.Length. R02.4: AddPacket appends at the end of the queue and derives recvEOM from the packet's EOM bit only. R02.5: the parser side of fragmentation tolerance — every short read surfaces as ErrNotEnoughBytes — is C07's E-ERR rule, re-run here over all wire-read call sites (a parser that loses one such check reports a parse error for a response that is merely fragmented at that point).",
+			Explanation: "Structural necessary conditions of fragmentation independence; equality of delivered packages over all cut sets is not decided. R02.1 (parse-or-rollback in WritePacket): the position handed to SetPosition on a failed attempt is exactly the pair returned by the Position() call made in the same loop iteration before tryParsePackage, with no DiscardUntilCurrentPosition in between (a discard shifts packet indices); a failed attempt returns through Reset() on the IsEOM edge or through that SetPosition; a successful attempt is followed by DiscardUntilCurrentPosition before the next attempt. R02.2: fresh parse state per attempt — every arm of LookupPackage returns a freshly allocated package, tryParsePackage calls it once per attempt, no wire-reading function writes a package-level variable. R02.3: transport reads that must fill a fixed buffer are io.ReadFull or sit in a counted loop: PacketHeader.ReadFrom returns success only after a full 8-byte read, Packet.ReadFrom returns success only when totalBytes == Header.Length. R02.4: AddPacket appends at the end of the queue and derives recvEOM from the packet's EOM bit only. R02.5: the parser side of fragmentation tolerance — every short read surfaces as ErrNotEnoughBytes — is C07's E-ERR rule, re-run here over all wire-read call sites (a parser that loses one such check reports a parse error for a response that is merely fragmented at that point). R02.1 also requires that tryParsePackage handles one package per invocation (no self-call, no loop around LookupPackage), so that the discard and the next saved position follow every handled package. R02.6: every return of PacketQueue.Bytes hands back the buffer allocated by that call (never a sub-slice of packet storage or a reused buffer that later reads overwrite while delivered packages still reference it).",
 			NotDecided:  "Values, order and exactly-once delivery of packages across packetisations are not decided.",
 			Assumptions: []string{"io.ReadFull contract (standard library)"},
 		}})
@@ -24,9 +24,12 @@ func runC02(r *core.Run) {
 	r.Rule("R02.2", "fresh parse state per attempt", 30, true)
 	r.Rule("R02.3", "fixed-size transport reads are complete before success", 3, false)
 	r.Rule("R02.4", "AddPacket appends in arrival order; recvEOM from the EOM bit only", 2, false)
+	r.Rule("R02.6", "values handed to the parsers do not alias queue storage", 1, false)
 	r.Rule("R02.5", "every short read surfaces as ErrNotEnoughBytes (E-ERR, all call sites)", 213, true)
 
-	c02Rollback(r)
+	c02Rollback(r, "R02.1")
+	okF, whyF := bytesReturnsFresh(p)
+	r.Check(okF, "R02.6", "PacketQueue.Bytes returns a buffer of its own", p.Func("tds", "PacketQueue", "Bytes").Pos(), "make([]byte, n) allocated by the call", whyF)
 	freshRule(r, ef, "R02.2")
 	eofZero := p.Global("tds", "ErrEOFAfterZeroRead")
 	c14Complete(r, "R02.3", func(v ssa.Value) bool {
@@ -37,7 +40,7 @@ func runC02(r *core.Run) {
 	errSites(r, ef, "R02.5")
 }
 
-func c02Rollback(r *core.Run) {
+func c02Rollback(r *core.Run, rule string) {
 	p := r.Prog
 	fn := p.Func("tds", "Channel", "WritePacket")
 	tpp := p.Func("tds", "Channel", "tryParsePackage")
@@ -57,13 +60,13 @@ func c02Rollback(r *core.Run) {
 	}
 	tries := callsTo(fn, tpp)
 	if len(tries) != 1 {
-		r.Unknown("R02.1", "WritePacket: tryParsePackage call", fn.Pos(), "expected one call site")
+		r.Unknown(rule, "WritePacket: tryParsePackage call", fn.Pos(), "expected one call site")
 		return
 	}
 	try := tries[0].(ssa.Instruction)
 	_, loop := core.InnermostLoop(try.Block())
 	if loop == nil {
-		r.Bad("R02.1", "WritePacket: attempts in a loop", try.Pos(), "tryParsePackage is not called in a loop: only one package per packet is parsed")
+		r.Bad(rule, "WritePacket: attempts in a loop", try.Pos(), "tryParsePackage is not called in a loop: only one package per packet is parsed")
 		return
 	}
 	// SetPosition args
@@ -146,7 +149,7 @@ func c02Rollback(r *core.Run) {
 			okSet, whySet = false, "SetPosition is not confined to the failed-attempt edge"
 		}
 	}
-	r.Check(okSet, "R02.1", "WritePacket: rollback to the position saved for this attempt", fn.Pos(), "SetPosition(Position() of the same iteration)", whySet)
+	r.Check(okSet, rule, "WritePacket: rollback to the position saved for this attempt", fn.Pos(), "SetPosition(Position() of the same iteration)", whySet)
 
 	// failed edge: Reset under IsEOM, else SetPosition; then return
 	okFail, whyFail := true, ""
@@ -191,7 +194,7 @@ func c02Rollback(r *core.Run) {
 			}
 		})
 	}
-	r.Check(okFail, "R02.1", "WritePacket: failed attempt resets at EOM or rolls back, then returns", fn.Pos(), "IsEOM → Reset, else SetPosition", whyFail)
+	r.Check(okFail, rule, "WritePacket: failed attempt resets at EOM or rolls back, then returns", fn.Pos(), "IsEOM → Reset, else SetPosition", whyFail)
 
 	// success edge: discard before the back edge
 	okDisc := false
@@ -203,9 +206,9 @@ func c02Rollback(r *core.Run) {
 			}
 		}
 	}
-	r.Check(okDisc, "R02.1", "WritePacket: consumed packets discarded after each parsed package", fn.Pos(), "DiscardUntilCurrentPosition on the success edge", "consumed packets are not discarded after a successful parse")
-	r.Check(len(callsTo(fn, pos)) >= 1, "R02.1", "WritePacket: position saved", fn.Pos(), "Position() called", "the read position is never saved")
-	onePerAttempt(r, "R02.1")
+	r.Check(okDisc, rule, "WritePacket: consumed packets discarded after each parsed package", fn.Pos(), "DiscardUntilCurrentPosition on the success edge", "consumed packets are not discarded after a successful parse")
+	r.Check(len(callsTo(fn, pos)) >= 1, rule, "WritePacket: position saved", fn.Pos(), "Position() called", "the read position is never saved")
+	onePerAttempt(r, rule)
 }
 
 func c02AddPacket(r *core.Run) {
